@@ -1,10 +1,10 @@
 (* Wal/Extract.v — extraction of the C05 model (ExtrOcamlBasic only) *)
 From Coq Require Import ExtrOcamlBasic.
-From ZV Require Import Wal.Model.
+From ZV Require Import Wal.Model Wal.Spec.
 Extraction Language OCaml.
 Extraction "model.ml" Z.of_N N.of_nat Nat.add
   crc32c crc_update crc_update_spec fnv1a32
   record_marshal record_unmarshal snap_marshal snap_unmarshal hs_marshal hs_unmarshal entry_marshal entry_unmarshal
   frame w_create w_step w_run w_files tail_file
-  decode_all reopen repair open_read_all valid_snapshot_entries verify
+  decode_all reopen repair writer_after final_result open_read_all valid_snapshot_entries verify
   img_trunc img_short img_zero img_flip set_nth_bytes set_last_bytes.
